@@ -215,6 +215,21 @@ def run(tier, seed, work, replay):
             extra.append(t2)
     traces = traces + extra
     cov["steps_through_webauthn_login"] = nwa
+    # ... and once more with the session user's own DISABLED hardware token (enrolled through the WebAuthn API, since
+    # lost) answering the challenge: owner "lost" is nobody's valid token
+    extra = []
+    nlost = 0
+    for t in traces:
+        if any(st["name"] == "U2FFinish" for st in t["steps"]) and not t["origin"].startswith("happy"):
+            t2 = copy.deepcopy(t)
+            t2["origin"] = t["origin"] + "+losttoken"
+            for st in t2["steps"]:
+                if st["name"] == "U2FFinish":
+                    st["args"]["owner"] = "lost"
+                    nlost += 1
+            extra.append(t2)
+    traces = traces + extra
+    cov["steps_with_disabled_token"] = nlost
     # two more refinements below the specification's grain, applied to every behaviour that has a second-factor step
     # carrying a session cookie: (a) a decoy - another browser's session cookie sent under the same name BEFORE the real
     # one (the specification ignores it: the request is the last cookie's); (b) the profile store refusing writes
